@@ -30,7 +30,11 @@ RULE = ("cases = interception plans (0-8 entries per family built by truncating 
         "name-server families. A third of the random plans, every corpus plan and a stream of nested chains (3-5 "
         "nested entries of alternating action with one common port spec, both families, shuffled) are fed through "
         "the REAL firewall.main() over its ROUTES/NSLIST/PORTS/GO line protocol (fake stdin/stdout, fakes only at "
-        "the subprocess/ioctl boundary) and the rules installed when it says STARTED are judged. Per plan every cell of the address x port arrangement is decided by the oracle. "
+        "the subprocess/ioctl boundary) and the rules installed when it says STARTED are judged. Stale-session "
+        "cases (nat, nft, tproxy, tproxy+udp): the real set-up of a first plan acts on a stateful table/chain/rule "
+        "state (tool exit codes and the -nL listing come from that state), no tear-down runs (the helper was "
+        "killed), then the real set-up of a different plan with the same ports/families/owner runs on top and the "
+        "resulting rule state is judged against the SECOND plan. Per plan every cell of the address x port arrangement is decided by the oracle. "
         "A case is non-trivial when the plan has overlapping entries, a port range, an owner restriction or a name "
         "server; distinct = distinct (method, canonical plan)")
 MANIFEST = dict(
@@ -54,8 +58,10 @@ MANIFEST = dict(
 )
 DRIVER_TARGETS = ['SshuttleModel.Code.FwRules', 'SshuttleModel.Env.PacketWalk', 'SshuttleModel.Spec.MostSpecific']
 ASSUMPTIONS = [
-    "every firewall command succeeds (failing commands are C04's subject); restore_firewall at the start of "
-    "setup_firewall finds no left-over chain",
+    "every firewall command succeeds and restore_firewall at the start of setup_firewall finds no left-over "
+    "chain, except in the stale-session cases, where exit codes and chain listings come from a stateful model "
+    "of the tools (-N fails on an existing chain, -X on a referenced/non-empty one, -D without an equal rule, "
+    "nft add table/chain idempotent); the killed session used the same ports, families, owner and mark",
     "iptables/ip6tables/nft/pf parse an address text to the number inet_pton gives and compare masked prefixes",
     "netfilter: first matching rule decides, RETURN/end of chain resumes the caller, MARK is non-terminating, "
     "mangle OUTPUT precedes nat OUTPUT; nft inet tables see both families",
@@ -171,17 +177,26 @@ class _FakePopen(object):
         return 0
 
 
-def _at_os_boundary(method, body):
+def _at_os_boundary(method, body, kernel=None):
     """Run body(method_object, rec) with subprocess.call/check_output/Popen (and, for pf, the ioctl and
-    pf_get_dev) replaced by recorders; everything is restored afterwards.  Returns body's value."""
+    pf_get_dev) replaced by recorders; everything is restored afterwards.  Returns body's value.
+    With `kernel` (a KernelState) the iptables/ip6tables/nft commands act on that state: their exit status
+    and the `-nL` listing come from it instead of "always succeeds / nothing exists"."""
     import subprocess
     import sshuttle.helpers as helpers
     from sshuttle.methods import get_method
     helpers.verbose = 0
     rec = []
     old = (subprocess.call, subprocess.check_output, subprocess.Popen, sys.stderr, helpers.logprefix)
-    subprocess.call = lambda argv, **kw: (rec.append(('call', list(argv), None)), 0)[1]
-    subprocess.check_output = lambda argv, **kw: (rec.append(('query', list(argv), None)), b'')[1]
+    def _call(argv, **kw):
+        rec.append(('call', list(argv), None))
+        return kernel.apply([str(a) for a in argv]) if kernel is not None else 0
+
+    def _query(argv, **kw):
+        rec.append(('query', list(argv), None))
+        return kernel.listing([str(a) for a in argv]) if kernel is not None else b''
+    subprocess.call = _call
+    subprocess.check_output = _query
     subprocess.Popen = lambda argv, **kw: _FakePopen(rec, argv, **kw)
     sys.stderr = io.StringIO()
     pfmod = None
@@ -234,7 +249,7 @@ def _classify_exc(e):
     return 'exc', tag
 
 
-def run_real_setup(method, c):
+def run_real_setup(method, c, kernel=None):
     """Call the real setup_firewall once.  Returns ('ok', [argv...]) | ('exc', tag) | ('internalError', tag)."""
     def body(m, rec):
         try:
@@ -243,7 +258,7 @@ def run_real_setup(method, c):
         except Exception as e:  # noqa
             return _classify_exc(e)
         return 'ok', _rule_cmds(rec)
-    return _at_os_boundary(method, body)
+    return _at_os_boundary(method, body, kernel)
 
 
 class _HelperStdout(object):
@@ -831,6 +846,248 @@ def cells(plan, method, rng, budget):
     return out
 
 
+# ------------------------------------------------------------------ stale session: a stateful rule state
+
+class KernelState(object):
+    """Tables / chains / rules as the kernel keeps them between commands, in the format `load_netfilter`
+    produces, with the tools' success / failure behaviour (measured in a network namespace while the design was
+    written): iptables `-N` fails on an existing chain, `-F`/`-A`/`-I` on a missing one, `-X` on a missing,
+    non-empty or referenced one, `-D` when no equal rule exists; nft `add table` / `add chain` succeed
+    silently on existing objects, `flush chain` / `add rule` need the chain, `delete table` needs the table."""
+
+    def __init__(self):
+        self.tables = {}
+
+    def _ipt_table(self, fam, name):
+        return self.tables.setdefault(('ipt', fam, name), {'OUTPUT': [], 'PREROUTING': []})
+
+    def listing(self, argv):
+        if argv[0] not in ('iptables', 'ip6tables') or '-nL' not in argv:
+            return b''
+        fam = AF_INET6 if argv[0] == 'ip6tables' else AF_INET
+        t = self._ipt_table(fam, argv[argv.index('-t') + 1])
+        out = []
+        for name, rules in t.items():
+            out.append('Chain %s (%s)' % (name, 'policy ACCEPT' if name in ('OUTPUT', 'PREROUTING') else
+                                         '%d references' % self._refs(t, name)))
+            out.append('target     prot opt source               destination')
+            out.extend('rule' for _ in rules)
+            out.append('')
+        return '\n'.join(out).encode('ascii')
+
+    @staticmethod
+    def _refs(t, name):
+        return sum(1 for rules in t.values() for r in rules if r.get('target') == name)
+
+    def apply(self, argv):
+        try:
+            if argv[0] in ('iptables', 'ip6tables'):
+                return self._ipt(argv)
+            if argv[0] == 'nft':
+                return self._nft(argv)
+        except Unparsable:
+            return 2                      # the tool rejects the command line
+        return 0
+
+    def _ipt(self, argv):
+        fam = AF_INET6 if argv[0] == 'ip6tables' else AF_INET
+        if argv[1:3] != ['-w', '-t']:
+            raise Unparsable('argv head')
+        t = self._ipt_table(fam, argv[3])
+        op, rest = argv[4], argv[5:]
+        builtin = ('OUTPUT', 'PREROUTING')
+        if op == '-N':
+            if rest[0] in t:
+                return 1
+            t[rest[0]] = []
+        elif op == '-F':
+            if rest[0] not in t:
+                return 1
+            t[rest[0]] = []
+        elif op == '-X':
+            if rest[0] not in t or rest[0] in builtin or t[rest[0]] or self._refs(t, rest[0]):
+                return 1
+            del t[rest[0]]
+        elif op in ('-I', '-A', '-D'):
+            if rest[0] not in t:
+                return 1
+            args = rest[1:]
+            if op == '-I':
+                if args[0] != '1':
+                    raise Unparsable('-I position')
+                args = args[1:]
+            r = parse_ipt_rule(fam, args)
+            if r['target'] not in ('RETURN', 'ACCEPT', 'REDIRECT', 'TPROXY', 'MARK') and r['target'] not in t:
+                return 2                  # jump to a chain that does not exist
+            if op == '-I':
+                t[rest[0]].insert(0, r)
+            elif op == '-A':
+                t[rest[0]].append(r)
+            else:
+                if r not in t[rest[0]]:
+                    return 1
+                t[rest[0]].remove(r)
+        else:
+            raise Unparsable('iptables op %r' % op)
+        return 0
+
+    def _nft(self, argv):
+        action = argv[1]
+        if argv[2] != 'inet':
+            raise Unparsable('nft family')
+        sp = ('nft', argv[3])
+        toks = ' '.join(argv[4:]).split()
+        if action == 'add table':
+            self.tables.setdefault(sp, {})
+        elif action == 'delete table':
+            if sp not in self.tables:
+                return 1
+            del self.tables[sp]
+        elif action == 'add chain':
+            if sp not in self.tables:
+                return 1
+            self.tables[sp].setdefault(toks[0], [])
+        elif action == 'flush chain':
+            if toks[0] not in self.tables.get(sp, {}):
+                return 1
+            self.tables[sp][toks[0]] = []
+        elif action == 'add rule':
+            if toks[0] not in self.tables.get(sp, {}):
+                return 1
+            r = parse_nft_rule(toks[1:])
+            if r['target'] not in ('RETURN', 'REDIRECT') and r['target'] not in self.tables[sp]:
+                return 1
+            self.tables[sp][toks[0]].append(r)
+        else:
+            raise Unparsable('nft action %r' % action)
+        return 0
+
+
+STALE_METHODS = ['nat', 'nft', 'tproxy', 'tproxy-udp']
+
+
+def run_sessions(method, plans):
+    """The real set-up of each plan in turn on ONE kernel state, without any tear-down in between (the
+    earlier sessions' helpers were killed).  -> ('ok', tables) | (kind, tag)."""
+    kernel = KernelState()
+    for plan in plans:
+        for c in plan.calls():
+            res = run_real_setup(method, c, kernel)
+            if res[0] != 'ok':
+                return res
+    return 'ok', kernel.tables
+
+
+def evaluate_sessions(method, first, plan, k):
+    kind, val = run_sessions(method, [first, plan])
+    if kind != 'ok':
+        return ('setup failed: %s %s' % (kind, val), spec_verdict(method, plan, k))
+    try:
+        return (verdict_real(method, val, plan, k), spec_verdict(method, plan, k))
+    except Unparsable as e:
+        return ('rule rejected: %s' % e, spec_verdict(method, plan, k))
+
+
+def second_plan(rng, method, first):
+    """A different plan for the same ports, families, owner and mark as `first`."""
+    fams = sorted({s[0] for s in first.subnets} | {n[0] for n in first.nslist})
+    for _ in range(50):
+        p = rand_plan(rng, method) if rng.random() < 0.6 else nested_plan(rng, method)
+        if sorted({s[0] for s in p.subnets} | {n[0] for n in p.nslist}) == fams:
+            break
+    else:
+        p = Plan([s for s in first.subnets[::2]], list(first.nslist[1:]), 0, 0, 0, 0, first.udp, None, None, '')
+        for f in fams:                                       # keep every family of the first session active
+            if not [s for s in p.subnets if s[0] == f] and not [n for n in p.nslist if n[0] == f]:
+                p.subnets.append((f, 8, False, addr_text(f, 0), 0, 0))
+    p.port6, p.port4, p.dns6, p.dns4 = first.port6, first.port4, first.dns6, first.dns4
+    p.user, p.group, p.tmark, p.udp = first.user, first.group, first.tmark, first.udp
+    return p
+
+
+def stale_session_case(ctx, method, first, plan, budget):
+    """Session 1 (`first`) is set up and killed; session 2 (`plan`) is set up on what it left.  The rule state
+    must implement `plan`."""
+    rng = ctx.rng
+    ctx.hist('stale-session:' + method)
+    kind, val = run_sessions(method, [first, plan])
+    case0 = dict(method=method, via='stale-session', first_plan=first.to_json(), plan=plan.to_json(), packet=None)
+    if kind != 'ok':
+        ctx.violation('C03:stale-session:%s:setup-fails' % method, case=case0,
+                      expected='the second session installs its rules over what the killed session left',
+                      observed='%s %s' % (kind, val))
+        return
+    if not wf_plan(plan):
+        return
+    ks = cells(plan, method, rng, budget) + [k for k in cells(first, method, rng, budget // 3) if k[3] == 'tcp']
+    bad = {}
+    nbad = {}
+    for k in ks:
+        try:
+            got = verdict_real(method, val, plan, k)
+        except Unparsable as e:
+            got = 'rule rejected: %s' % e
+        want = spec_verdict(method, plan, k)
+        if got != want:
+            key = KNOWN_MASK32_KEY if is_ipv6_ns_mask32_class(method, plan, k, got, want) else \
+                _classify('stale-session:' + method, plan, k, got, want)
+            nbad[key] = nbad.get(key, 0) + 1
+            if key not in bad or (bad[key][0][4] == 0 and k[4] == 1):
+                bad[key] = (k, got, want)
+    ctx.count(len(ks))
+    ctx.hist('cells', len(ks))
+    reported = ctx.__dict__.setdefault('_c03_reported', set())
+    for key in sorted(bad):
+        k, got, want = bad[key]
+        ctx.hist('violating-plans:' + key)
+        if key in reported:
+            continue
+        reported.add(key)
+
+        def still(f, p2):
+            g, w = evaluate_sessions(method, f, p2, k)
+            if g == w:
+                return False
+            kk = KNOWN_MASK32_KEY if is_ipv6_ns_mask32_class(method, p2, k, g, w) else \
+                _classify('stale-session:' + method, p2, k, g, w)
+            return kk == key
+        f, p2 = first, plan
+        changed = True
+        while changed:                                   # drop entries of either session while it still fails
+            changed = False
+            for which in (0, 1):
+                cur = (f, p2)[which]
+                for field in ('subnets', 'nslist'):
+                    items = list(getattr(cur, field))
+                    for i in range(len(items)):
+                        trial = Plan.from_json(cur.to_json())
+                        setattr(trial, field, items[:i] + items[i + 1:])
+                        pair = (trial, p2) if which == 0 else (f, trial)
+                        if which == 1 and sorted({x[0] for x in trial.subnets} | {x[0] for x in trial.nslist}) != \
+                                sorted({x[0] for x in cur.subnets} | {x[0] for x in cur.nslist}):
+                            continue                     # the second session keeps serving the same families
+                        if still(*pair):
+                            f, p2 = pair
+                            changed = True
+                            break
+                    if changed:
+                        break
+                if changed:
+                    break
+        g2, w2 = evaluate_sessions(method, f, p2, k)
+        ctx.violation(key,
+                      case=dict(method=method, via='stale-session', first_plan=f.to_json(), plan=p2.to_json(),
+                                packet=list(k),
+                                packet_text='%s %s port %d to %s, %s' % (
+                                    'IPv6' if k[0] else 'IPv4', k[3], k[2],
+                                    addr_text(AF_INET6 if k[0] else AF_INET, k[1]),
+                                    'locally generated' if k[4] else 'forwarded')),
+                      expected='%s (property evaluated on the SECOND session\'s plan)' % w2,
+                      observed='%s (walk over the rule state after the real set-up of first_plan, no tear-down, then '
+                               'the real set-up of plan on the same ports); %d of %d cells disagree in this class'
+                               % (g2, nbad[key], len(ks)))
+
+
 # ------------------------------------------------------------------ generators
 
 def rand_plan(rng, method, size_hint=None):
@@ -1178,6 +1435,20 @@ def gen_and_run(ctx):
             if i < 1 and method == 'nft':
                 ctx.sample(dict(method=method, path='firewall.main', helper_stdin=helper_input(plan).decode('ascii'),
                                 real_code_output=lg.outs[:1]))
+    # 2c. a session set up on top of what a killed session left (same ports, no tear-down in between)
+    for i in range(ctx.scale(16, 500)):
+        for method in STALE_METHODS:
+            first = rand_plan(rng, method) if i % 2 else nested_plan(rng, method)
+            if i == 0:
+                first = Plan([(AF_INET, 8, False, '10.0.0.0', 0, 0), (AF_INET, 24, False, '192.168.7.0', 0, 0)],
+                             [(AF_INET, '10.0.0.53')], 12300, 12300, 12299, 12299, method == 'tproxy-udp',
+                             None, None, '0x01')
+                plan = Plan([(AF_INET, 16, False, '10.1.0.0', 0, 0), (AF_INET, 24, True, '10.1.2.0', 0, 0)],
+                            [], 12300, 12300, 12299, 12299, method == 'tproxy-udp', None, None, '0x01')
+            else:
+                plan = second_plan(rng, method, first)
+            stale_session_case(ctx, method, first, plan, 250)
+            ctx.mark(('stale', method, repr(first.to_json()), repr(plan.to_json())), True)
     # 3. generated plans
     nplans = ctx.scale(150, 2500)
     for i in range(nplans):
@@ -1298,6 +1569,16 @@ def replay(ctx, rep):
     method = case['method']
     via = case.get('via', 'direct')
     plan = Plan.from_json(case['plan'])
+    if via == 'stale-session':
+        first = Plan.from_json(case['first_plan'])
+        if case.get('packet') is None:
+            kind, val = run_sessions(method, [first, plan])
+            return kind != 'ok', 'second set-up on the killed session\'s state: %s %s' % (
+                kind, val if kind != 'ok' else 'rules installed')
+        k = tuple(case['packet'])
+        got, want = evaluate_sessions(method, first, plan, k)
+        return got != want, 'packet %s (%s), second session on a killed session\'s state: rule state -> %s, ' \
+            'property (second plan) -> %s' % (pkt_field(k), case.get('packet_text', ''), got, want)
     if case.get('packet') is None:
         kind, val, _pc = real_plan_cmds(method, plan, via)
         if kind != 'ok':
